@@ -56,6 +56,9 @@ CHECKS = {
     "C09": ("E6 float-exactness taint + interval evaluation by provenance; sibling-shape agreement; E7 format-template decoding with argument-flow checks",
             "PARTIAL: no f64 view of the duration and only exact int->float casts in compute_gregorian's cone; forward/inverse Gregorian code share reference year, ranges, leap predicate, tables and offset (opposite sign); hour/minute/second/ns ranges and lossless casts; the eight writers' templates, argument order, scale and fraction guard; year/month_name from the same decomposition. Exact inversion of the day count by the year/month search is NOT decided.",
             "3.C09"),
+    "C19": ("abstract interpretation of Display for Formatter over per-rule abstract formats with E7 template decoding; finite-map extraction; constant-vs-documentation agreement",
+            "token -> (field, {:0N}) table for every token in both branches; letter -> Token map and Item::new separator/optional table; each predefined constant equals its documented format string (rustdoc pairs / named standard); no panic for any token, Format fields private, need_gregorian partition; separators exactly once; ISO8601 renders as the default Display template.",
+            "3.C19"),
 }
 
 NOT_YET = {}
